@@ -1,6 +1,7 @@
 import ErrModel.Proofs.EngineBasic
 import ErrModel.Proofs.EngineLW
 import ErrModel.Proofs.LexUnlex
+import ErrModel.Proofs.Regular
 /-
   C06 — Redactable renderings are well-formed and congruent with plain ones.
 
@@ -93,6 +94,30 @@ theorem C06_plain_no_markers_in_entries (s : LState) (b wd : Bool) (d : Nat) (t 
     AllBytes (collect s b false wd d t).head ∧ AllBytes (collect s b false wd d t).details := by
   subst hb
   constructor <;> simp [collect] <;> exact allBytes_bytesT _
+
+/-! ### congruence with the plain rendering (one-line form, regular ASCII text)
+
+  `RegE` (Proofs/Regular.lean): every string a layer shows on one line is ASCII, begins and ends
+  with a non-newline byte and has no doubled newline; stored redactable strings are well-formed.
+  The inputs are marker-free in the sense of the property: an ASCII string cannot hold a marker
+  rune.  The verbose form and non-ASCII text are decided by the correspondence and the oracle. -/
+
+/-- stripping the markers (as tokens) from the redactable `%v`/`%s` rendering gives exactly the plain
+    rendering of the same error, at any depth -/
+theorem C06_congruent_v (e : Err) (h : RegE e) : stripT (renderT true false e) = render false false e := by
+  rw [stripT_renderT_v e h true, render_v_eq_errText e h]
+
+/-- the same on the bytes a caller holds (`StripMarkers` of the redactable string), unless three
+    adjacent plain bytes of the rendering spell a marker -/
+theorem C06_congruent_v_bytes (e : Err) (h : RegE e) (hs : NoSpell (eraseLabel (renderT true false e))) :
+    stripMarkers (render true false e) = render false false e := by
+  have : stripMarkers (render true false e) = stripT (lex (unlex (renderT true false e))) := rfl
+  rw [this, lex_unlex_erase _ hs, stripT_eraseLabel, C06_congruent_v e h]
+
+/-- both renderings are the Error() text -/
+theorem C06_both_are_error_text (e : Err) (h : RegE e) :
+    stripT (renderT true false e) = errText e ∧ render false false e = errText e :=
+  ⟨stripT_renderT_v e h true, render_v_eq_errText e h⟩
 
 /-- on bytes: the string a caller receives is `unlex` of the tokens; lexing it gives the same
     tokens back — hence the same well-formedness — unless three adjacent plain bytes of the
